@@ -212,6 +212,10 @@ func (g *Gen) pickTarget(s Snap) int {
 	pend := g.classOps(s, func(o OpInfo) bool { return o.Pending })
 	unk := g.classOps(s, func(o OpInfo) bool { return !o.Exists && !o.Pending })
 	envelope := g.Cfg.Mode == "envelope" || g.Cfg.Mode == "calm"
+	if !envelope && g.downKey >= 0 && g.downKey < NOPS && r.P(12) {
+		// the validator that is being kept absent: admin operations around (and in the very block of) its jailing
+		return g.downKey
+	}
 	for tries := 0; tries < 20; tries++ {
 		var c int
 		if envelope {
